@@ -510,13 +510,33 @@ pub fn all(tier: Tier) -> Vec<P> {
         P {
             name: "MemoryMappedInput::from_path: read_var_int -> skip(n) / length-prefixed string / bytes",
             seeds: |_| lp_seeds(true),
-            parse: |b, _| with_file(b, |p| lp_passes(&|| MemoryMappedInput::from_path(p).ok())),
+            parse: |b, _| {
+                with_file(b, |p| {
+                    let any = lp_passes(&|| MemoryMappedInput::from_path(p).ok());
+                    // the same length prefix through the type's own readers (zero-copy ones exist only behind the mmap strategy)
+                    if let Ok(mut i) = MemoryMappedInput::from_path(p) {
+                        if let Ok(n) = i.read_var_int() {
+                            let n = n as usize;
+                            let at = i.position();
+                            std::hint::black_box(i.peek_slice(n).is_ok());
+                            std::hint::black_box(i.peek_slice_zero_copy(n).map(|s| s.len()).is_ok());
+                            std::hint::black_box(i.read_slice_zero_copy(n).map(|s| s.len()).is_ok());
+                            std::hint::black_box(i.seek(at).is_ok());
+                            std::hint::black_box(i.read_slice(n).is_ok());
+                            std::hint::black_box(i.seek(n).is_ok());
+                            std::hint::black_box(i.read_u8().is_ok());
+                        }
+                    }
+                    any
+                })
+            },
             len_arg: false,
             small: th,
         },
         P {
             name: "MemoryMappedInput::from_path: read_slice/peek_slice/zero_copy/seek/skip/read_vec(len) + fixed-width reads",
-            seeds: |_| raw_seeds(true),
+            // (the 4 200-byte file x 7 length arguments x 4 200 truncations is thorough's; in quick the mmap strategy is reached by the subject above)
+            seeds: |t| raw_seeds(t == Tier::Thorough),
             parse: |b, n| with_file(b, |p| mmi_passes(p, n)),
             len_arg: true,
             small: false,
@@ -593,8 +613,8 @@ pub fn all(tier: Tier) -> Vec<P> {
         },
         P {
             name: "DictZipBlobStore::from_dictionary_file + put/get",
-            // (every case builds a PA-Zip compressor and stores four records, ~0.5 ms: two of the three dictionaries in quick)
-            seeds: |t| sa_dict_use_seeds(t).into_iter().filter(|s| t == Tier::Thorough || !s.label.contains("minfreq=1")).collect(),
+            // (every case builds a PA-Zip compressor and stores two records, ~0.4 ms: the dictionary with a DFA-cache pattern in quick)
+            seeds: |t| sa_dict_use_seeds(t).into_iter().filter(|s| t == Tier::Thorough || s.label.contains("minfreq=2")).collect(),
             parse: |b, _| {
                 limit_address_space();
                 let r = with_file(b, |p| DictZipBlobStore::from_dictionary_file(p, dictzip_config()));
